@@ -3,6 +3,7 @@
     Proofs/SecretsProofs.v (compact secret store). *)
 From VLS Require Import Base.U64 Model.Enforcement Model.Secrets
   Proofs.EnforcementProofs Proofs.CounterpartyProofs Proofs.SecretsProofs.
+From VLS Require Gen.EnforcementGen Proofs.EnforcementGenProofs.
 
 Definition c03_filter (warn : tag -> bool) : Prop :=
   warn TPrevRevoked = false /\ warn TRetrySame = false /\ warn TOther = false.
@@ -102,3 +103,31 @@ Example C03_nonvacuous :
 Proof.
   cbv zeta. split; [repeat constructor; cbv; discriminate|]. vm_compute. split; reflexivity.
 Qed.
+
+(** The two state updates the counterparty side of the model rests on are the ones in the source:
+    Gen/EnforcementGen.v is the statement-by-statement translation of
+    [EnforcementState::set_next_counterparty_commit_num] and [::set_next_counterparty_revoke_num]
+    (vls-core/src/policy/validator.rs, regenerated on every run by tools/gen_rustfn.py), and for
+    counters below 2^64-1 it computes, in both build profiles, exactly the model's [set_cp_commit] /
+    [set_cp_revoke] - the same panic on a zero number, the same fields moved, cleared and kept. *)
+Theorem C03_commit_update_is_source :
+  forall (prof : profile) (fr : EnforcementGenProofs.frame) (e : estate) (num : N) (pt : point) (c : content),
+    next_c e < U64MAX ->
+    EnforcementGen.gen_set_next_counterparty_commit_num prof (EnforcementGenProofs.to_res fr e) num pt c =
+    match set_cp_commit e num pt c with
+    | Some e' => Val (EnforcementGenProofs.to_res fr e')
+    | None => Trap
+    end.
+Proof. exact EnforcementGenProofs.gen_set_cp_commit_is_model. Qed.
+Print Assumptions C03_commit_update_is_source.
+
+Theorem C03_revoke_update_is_source :
+  forall (prof : profile) (fr : EnforcementGenProofs.frame) (e : estate) (num : N) (secs : list (N * N)),
+    num < U64MAX ->
+    EnforcementGen.gen_set_next_counterparty_revoke_num prof (EnforcementGenProofs.to_res fr e) num =
+    match set_cp_revoke e num secs with
+    | Some e' => Val (EnforcementGenProofs.to_res fr e')
+    | None => Trap
+    end.
+Proof. exact EnforcementGenProofs.gen_set_cp_revoke_is_model. Qed.
+Print Assumptions C03_revoke_update_is_source.
